@@ -151,6 +151,8 @@ func c13New(ty string) proto.Message {
 		return new(emptypb.Empty)
 	case "string":
 		return new(wrapperspb.StringValue)
+	case "value":
+		return new(structpb.Value)
 	default:
 		return new(wrapperspb.BytesValue)
 	}
@@ -565,6 +567,30 @@ func TestVerifC13(t *testing.T) {
 	for _, n := range []int{8388608 - 11, 8388608 - 10, 8388608 - 9} {
 		in := c13In{Tag: "limit", Writes: []c13Write{{T: "msg", Ty: "bytes", Fill: n}}, Chunk: 0}
 		out.emit(in, c13Run(in, rng))
+	}
+	// messages that nest: whatever the writer accepted and framed, the reader gets back equal —
+	// lists in lists (two message levels per list) and structs in structs, shallow to very deep
+	nestedList := func(d int) *structpb.Value {
+		v := structpb.NewNumberValue(7)
+		for k := 0; k < d; k++ {
+			v = structpb.NewListValue(&structpb.ListValue{Values: []*structpb.Value{v}})
+		}
+		return v
+	}
+	nestedStruct := func(d int) *structpb.Value {
+		v := structpb.NewStringValue("leaf")
+		for k := 0; k < d; k++ {
+			v = structpb.NewStructValue(&structpb.Struct{Fields: map[string]*structpb.Value{"k": v}})
+		}
+		return v
+	}
+	for _, d := range []int{1, 8, 30, 49, 50, 51, 64, 100, 127, 128, 333, 1000, 2400} {
+		in := c13In{Tag: "nested", Writes: []c13Write{msg("value", nestedList(d)), sample()}, Chunk: chunks[rng.intn(len(chunks))]}
+		out.emit(in, c13Run(in, rng))
+		if d <= 1000 {
+			in = c13In{Tag: "nested", Writes: []c13Write{sample(), msg("value", nestedStruct(d))}, Chunk: 0}
+			out.emit(in, c13Run(in, rng))
+		}
 	}
 	// sequences
 	for i := 0; i < vcount(400, 6000); i++ {
